@@ -1279,6 +1279,40 @@ func genLevel(repo, out string) {
 		}
 		sb.WriteString(d + "\n")
 	}
+	// overlapLN: which tables of a level a compaction takes
+	{
+		fo := findFunc(p, "levelManager", "overlapLN")
+		cond := "types.CompareKeys(index.Entries[0].StartKey, end) <= 0 && types.CompareKeys(index.Entries[len(index.Entries)-1].EndKey, start) >= 0"
+		sp := transSpec{
+			leanName: "overlapLN",
+			binders:  "{τ : Type} (startsBeforeEnd endsAfterStart : τ → Bool) (tables : List τ)",
+			retType:  "List τ",
+			exprMap: map[string]string{"lm.levels[level].Len() == 0": "(decide (tables.length = 0))", "lm.levels[level]": "tables", "ln": "tables",
+				"e.Value.(tableHandle).dataBlockIndex": "e", cond: "(startsBeforeEnd index && endsAfterStart index)"},
+			state: []string{"overlaps"}, stateLn: []string{"overlaps"}, stateTy: []string{"List τ"},
+			zero: map[string]string{"[]*list.Element": "[]"},
+			ret: func(vals []string, st []string) string {
+				if vals[0] == "nil" {
+					return "[]"
+				}
+				return vals[0]
+			},
+			fallOff:  func(st []string) string { return "overlaps" },
+			panicVal: "[]",
+		}
+		d := ""
+		err := fmt.Errorf("levelManager.overlapLN not found")
+		if fo != nil {
+			t := &translator{spec: sp}
+			body := t.stmts(fo.Body.List, func() string { return "overlaps" }, "", "")
+			err = t.err
+			d = fmt.Sprintf("def %s %s : %s :=\n  let overlaps : List τ := []\n  %s\n", sp.leanName, sp.binders, sp.retType, body)
+		}
+		if err != nil {
+			d = fmt.Sprintf("/-- UNTRANSLATABLE: %s -/\ndef overlapLN : Unit := ()\n", strings.ReplaceAll(err.Error(), "-/", "- /"))
+		}
+		sb.WriteString(d + "\n")
+	}
 	// writeTable: how a table file is published
 	{
 		f5 := findFunc(p, "levelManager", "writeTable")
